@@ -376,7 +376,7 @@ class Gen:
         cid = r.choice(live)
         k = r.random()
         if self.invalid_nicks and r.random() < 0.12:
-            new = r.choice(["two words", "", " lead", "a b c"])
+            new = r.choice(["two words", "", " lead", "a b c", "ev\til", "nb\u00a0sp", "wide\u3000gap", "v\x0bt", "tail\t"])
             return ("act", cid, {"verb": "NICK", "nick": new, "line": "NICK :" + new})
         if k < 0.55:
             free = [n for n in self.nicks if n not in self.m.users]
